@@ -57,6 +57,14 @@ func init() {
 		{"1.0a1", "1.0b1", "1.0rc1", "1.0", "1.0.post1", "1.1.dev1", "1.1a1", "1.1", "1.2", "2.0rc1", "2.0", "2.0.1", "2.10", "3.0b2", "3.0", "1!0.1", "1!1.0"},
 		{"1.0", "1.0.post1", "1.1", "1.2", "1.2.post2", "2.0", "2.0.1", "2.10", "3.0", "3.1", "4.0", "5.0", "6.0", "1!0.1", "1!1.0", "1!2.0", "2!0.1"},
 	}
+	// upper- and lower-case identifiers for the case-sensitive schemes (ASCII order: upper first)
+	semCase := []string{"1.0.0-ALPHA", "1.0.0-Alpha", "1.0.0-BETA", "1.0.0-RC.1", "1.0.0-RC.2", "1.0.0-Rc.1", "1.0.0-alpha", "1.0.0-beta", "1.0.0-rc.1", "1.0.0", "1.0.1-A", "1.0.1-a", "1.0.1", "2.0.0-RC.1", "2.0.0-rc.1", "2.0.0", "3.0.0"}
+	for _, s := range []string{"generic", "npm", "cargo"} {
+		versPools[s] = append(versPools[s], semCase)
+	}
+	versPools["golang"] = append(versPools["golang"], v(semCase))
+	versPools["deb"] = append(versPools["deb"], []string{"1.0A", "1.0B", "1.0Z", "1.0a", "1.0b", "1.0z", "1.1", "1.1A", "1.1RC1", "1.1a", "1.1rc1", "1.2", "1.2-1A", "1.2-1a", "2.0", "2.0A", "2.0a"})
+	versPools["rpm"] = append(versPools["rpm"], []string{"1.0A", "1.0B", "1.0Z", "1.0a", "1.0b", "1.0z", "1.1", "1.1.A", "1.1.RC1", "1.1.a", "1.1.rc1", "1.2", "1.2-1.A", "1.2-1.a", "2.0", "2.0.A", "2.0.a"})
 	versPools["alpine"] = [][]string{
 		{"0.1", "0.5", "1.0", "1.0.1", "1.2", "1.5", "2.0", "2.1", "3.0", "3.5", "4.0", "4.5", "5.0", "6.0", "7.0", "8.0", "9.0"},
 		{"1.0_alpha", "1.0_rc1", "1.0", "1.0-r1", "1.0_p1", "1.0.1", "1.1_rc1", "1.1", "1.1-r2", "1.2a", "1.10", "2.0_pre1", "2.0", "2.0.1", "3.0_beta", "3.0", "10.0"},
